@@ -9,10 +9,6 @@ CONSTANTS
  FixNifty = TRUE
  AtomicAdopt = TRUE
  RefreshExpected = TRUE
- ReleaseLast = TRUE
+ ReleaseLast = FALSE
 INVARIANT NoShare
-INVARIANT OwnedInUse
-INVARIANT Reclaimed
-INVARIANT ListComplete
-INVARIANT FreedAtExit
 CHECK_DEADLOCK FALSE
